@@ -255,7 +255,9 @@ theorem flag_resumeGate (w : World c) (h : FlagOn w) : ∀ r, resumeGate w = som
   repeat' split at hr
   all_goals first | (injection hr with hr; subst hr; exact h) | cases hr
 theorem flag_parkOrFail (w : World c) (h : FlagOn w) : FlagOn (parkOrFail w).1 := by
-  simp only [parkOrFail]; split <;> exact h
+  simp only [parkOrFail]
+  repeat' split
+  all_goals exact h
 theorem flag_parkedRead (n : Option Nat) (w : World c) (h : FlagOn w) : FlagOn (parkedRead w n).1 := by
   simp only [parkedRead]
   split
